@@ -76,4 +76,25 @@ def resolves (g : G) : Prop :=
 
 instance (g : G) : Decidable (resolves g) := by unfold resolves; exact inferInstance
 
+/-- comparison `x` merges the right individual at index `j` into a left individual -/
+def isPairR (j : Nat) : M → Bool
+  | .both _ j' => j' == j
+  | _ => false
+
+/-- what the known finding `merge-does-not-rewrite-pointers` describes: pointer `p` is carried by
+    no left individual, by some right individual, and every right individual that carries it is
+    merged into a left individual (whose record keeps the left pointer) — after the merge no
+    record is called `p` -/
+def mergedAway (m : List M) (l r : List Rcd) (p : Nat) : Bool :=
+  !(l.any fun a => a.ptr == p) && (r.any fun b => b.ptr == p) &&
+  (List.range r.length).all fun j =>
+    match r[j]? with
+    | some b => b.ptr != p || m.any (isPairR j)
+    | none => true
+
+/-- the HUSB / WIFE / CHIL lines of the merged families whose target has been merged away -/
+def danglingRefs (m : List M) (l r : G) : List (Nat × Ref) :=
+  (mergeG m l r).fams.flatMap fun f =>
+    (f.refs.filter fun x => mergedAway m l.indis r.indis x.2).map fun x => (f.ptr, x)
+
 end Gedcom.MergeG
